@@ -9,6 +9,7 @@ import (
 
 	"github.com/bluenviron/gomavlib/v3/pkg/message"
 
+	"verifharness/evid"
 	"verifharness/ref"
 )
 
@@ -29,6 +30,7 @@ var (
 	typesErr  error
 	// user structs with an enum wire type the library may refuse (int16, int64): refused at initialization / accepted
 	refusedUsers, acceptedRare int
+	viaConstructor             int // codecs obtained through message.NewReadWriter instead of Initialize
 )
 
 // types returns every distinct shipped message type and every generated user struct.
@@ -49,6 +51,19 @@ func types(t testing.TB) []*typeInfo {
 			}
 			ti.lay = lay
 			rw := &message.ReadWriter{Message: m}
+			if evid.HashS(ty.String())%4 == 0 {
+				// a quarter of the codecs come from the older constructor: it must be the same codec
+				if rw2, err := message.NewReadWriter(m); err == nil { //nolint:staticcheck
+					viaConstructor++
+					ti.lay = lay
+					ti.rw = rw2
+					if user != nil && user.MayRefuse {
+						acceptedRare++
+					}
+					allTypes = append(allTypes, ti)
+					return
+				}
+			}
 			if err := rw.Initialize(); err != nil && user != nil && user.MayRefuse {
 				refusedUsers++ // refused at initialization: nothing of it can be encoded differently later
 				return
